@@ -7,9 +7,9 @@ namespace ShVerif.C08
 /-! ## the glue: wrappedReader.Read + InteractiveSeq -/
 
 /-- nothing has stopped the iteration yet -/
-def Live (g : G) : Prop := g.stopped = false ∧ g.done = false ∧ g.panic = false
+def Live (g : G) : Prop := g.stopped = false ∧ g.done = false ∧ g.panic = false ∧ g.wstopped = false
 
-theorem live_init : Live ({} : G) := ⟨rfl, rfl, rfl⟩
+theorem live_init : Live ({} : G) := ⟨rfl, rfl, rfl, rfl⟩
 
 theorem yieldOk_none (g : G) (h : g.stopped = false) : g.yieldOk none = true := by
   simp [G.yieldOk, h]
@@ -28,7 +28,7 @@ theorem step_read_live (g : G) (hl : Live g) (nl : Bool) (line o l : Nat) (err i
           { g with cbs := g.cbs ++ [{ stmts := [], inc := false, err := err, fromRead := true, inStmt := ins }], lastLine := line }
         else { g with lastLine := line }
       else g := by
-  obtain ⟨h1, h2, h3⟩ := hl
+  obtain ⟨h1, h2, h3, _⟩ := hl
   simp [step, readTail, G.yieldOk, G.yielded, h1, h2, h3]
 
 theorem step_stmt_live (g : G) (hl : Live g) (id : Option Nat) (err tn : Bool) (line o l : Nat) :
@@ -40,21 +40,21 @@ theorem step_stmt_live (g : G) (hl : Live g) (id : Option Nat) (err tn : Bool) (
         { g with acc := [], lastLine := line + 1,
                  cbs := g.cbs ++ [{ stmts := g.acc ++ [id], inc := incomplete o l, err := false, fromRead := false, inStmt := false }] }
       else { g with acc := g.acc ++ [id] } := by
-  obtain ⟨h1, h2, h3⟩ := hl
-  simp [step, stmtTail, G.yieldOk, G.yielded, h1, h2, h3]
+  obtain ⟨h1, h2, h3, h4⟩ := hl
+  simp [step, stmtTail, G.yieldOk, G.yielded, h1, h2, h3, h4]
 
 theorem step_live (g : G) (hl : Live g) (e : Ev) : Live (step none g e) := by
   cases e with
   | read nl line o l err ins =>
     rw [step_read_live g hl]
-    obtain ⟨h1, h2, h3⟩ := hl
+    obtain ⟨h1, h2, h3, h4⟩ := hl
     repeat' split
-    all_goals exact ⟨h1, h2, h3⟩
+    all_goals exact ⟨h1, h2, h3, h4⟩
   | stmt id err tn line o l =>
     rw [step_stmt_live g hl]
-    obtain ⟨h1, h2, h3⟩ := hl
+    obtain ⟨h1, h2, h3, h4⟩ := hl
     repeat' split
-    all_goals exact ⟨h1, h2, h3⟩
+    all_goals exact ⟨h1, h2, h3, h4⟩
 
 theorem runFrom_nil (st : Option Nat) (g : G) : runFrom st g [] = g := rfl
 
@@ -305,22 +305,24 @@ theorem step_cbs (st : Option Nat) (g : G) (e : Ev) :
     split
     · left; rfl
     · split
-      · rcases yielded_cbs { g with acc := g.acc ++ [id] } st
-          { stmts := g.acc ++ [id], inc := incomplete o l, err := true, fromRead := false, inStmt := false } with h | h
-        · left; split <;> simpa using h
-        · right
-          refine ⟨{ stmts := g.acc ++ [id], inc := incomplete o l, err := true, fromRead := false, inStmt := false }, ?_, rfl, rfl⟩
-          split <;> simpa using h
+      · left; rfl
       · split
         · rcases yielded_cbs { g with acc := g.acc ++ [id] } st
-            { stmts := g.acc ++ [id], inc := incomplete o l, err := false, fromRead := false, inStmt := false } with h | h
-          · left; repeat' split
-            all_goals simpa using h
+            { stmts := g.acc ++ [id], inc := incomplete o l, err := true, fromRead := false, inStmt := false } with h | h
+          · left; split <;> simpa using h
           · right
-            refine ⟨{ stmts := g.acc ++ [id], inc := incomplete o l, err := false, fromRead := false, inStmt := false }, ?_, rfl, rfl⟩
-            repeat' split
-            all_goals simpa using h
-        · left; rfl
+            refine ⟨{ stmts := g.acc ++ [id], inc := incomplete o l, err := true, fromRead := false, inStmt := false }, ?_, rfl, rfl⟩
+            split <;> simpa using h
+        · split
+          · rcases yielded_cbs { g with acc := g.acc ++ [id] } st
+              { stmts := g.acc ++ [id], inc := incomplete o l, err := false, fromRead := false, inStmt := false } with h | h
+            · left; repeat' split
+              all_goals simpa using h
+            · right
+              refine ⟨{ stmts := g.acc ++ [id], inc := incomplete o l, err := false, fromRead := false, inStmt := false }, ?_, rfl, rfl⟩
+              repeat' split
+              all_goals simpa using h
+          · left; rfl
 
 /-- invariant: every callback that reports Incomplete comes from a blocked read inside a statement -/
 def IncOk (g : G) : Prop := ∀ cb ∈ g.cbs, cb.inc = true → cb.fromRead = true ∧ cb.inStmt = true
@@ -414,7 +416,8 @@ theorem readTail_stopOk (k : Nat) (g : G) (nl : Bool) (line o l : Nat) (err ins 
     (h : StopOk k g) (hd : g.done = false) (hp : g.panic = false) :
     StopOk k (readTail (some k) g nl line o l err ins) := by
   have key : ∀ cb : Cb, cb.fromRead = true →
-      StopOk k (if g.yieldOk (some k) then { g.yielded (some k) cb with lastLine := line } else g.yielded (some k) cb) := by
+      StopOk k (if g.yieldOk (some k) then { g.yielded (some k) cb with lastLine := line }
+                else { g.yielded (some k) cb with wstopped := true }) := by
     intro cb hfr
     obtain ⟨y1, y2, y3, y4, y5⟩ := yielded_stopOk k g cb h hd hp
     have core : StopOk k (g.yielded (some k) cb) := by
@@ -502,8 +505,13 @@ theorem step_stopOk (k : Nat) (g : G) (e : Ev) (h : StopOk k g) : StopOk k (step
       simp only [step, hdp]
       exact readTail_stopOk k g nl line o l err ins h hd hp
     | stmt id err tn line o l =>
-      simp only [step, hdp]
-      exact stmtTail_stopOk k _ err tn line o l h hd hp
+      by_cases hw : g.wstopped = true
+      · simp only [step]
+        rw [if_neg hdp, if_pos hw]
+        exact ⟨fun hh => by rw [hp] at hh; exact absurd hh (by decide), fun _ hdn => by simp at hdn, h.2.2⟩
+      · simp only [step]
+        rw [if_neg hdp, if_neg hw]
+        exact stmtTail_stopOk k { g with acc := g.acc ++ [id] } err tn line o l h hd hp
 
 theorem runFrom_stopOk (k : Nat) (tr : List Ev) (g : G) (h : StopOk k g) : StopOk k (runFrom (some k) g tr) := by
   induction tr generalizing g with
@@ -608,5 +616,138 @@ theorem rhsValue_congr (consts : List (String × String)) (s1 s2 : String → Op
     · cases hn : negatedField rhs with
       | none => rfl
       | some g => simp only [h g hn]
+
+/-! ### after the fix: `w.stopped` -/
+
+/-- invariant: whenever the consumer has returned false, `w.stopped` is set -/
+def StopInv (g : G) : Prop := g.panic = false ∧ (g.stopped = true → g.wstopped = true)
+
+theorem yielded_of_not_stopped (g : G) (st : Option Nat) (cb : Cb) (h : g.stopped = false) :
+    (g.yielded st cb).panic = g.panic ∧ (g.yielded st cb).done = g.done ∧
+    (g.yielded st cb).wstopped = g.wstopped ∧
+    ((g.yielded st cb).stopped = true → g.yieldOk st = false) := by
+  simp [G.yielded, G.yieldOk, h]
+
+theorem readTail_stopInv (st : Option Nat) (g : G) (nl : Bool) (line o l : Nat) (err ins : Bool)
+    (hp : g.panic = false) (hst : g.stopped = false) : StopInv (readTail st g nl line o l err ins) := by
+  have key : ∀ cb : Cb,
+      StopInv (if g.yieldOk st then { g.yielded st cb with lastLine := line }
+               else { g.yielded st cb with wstopped := true }) := by
+    intro cb
+    obtain ⟨y1, _, _, y4⟩ := yielded_of_not_stopped g st cb hst
+    split
+    · rename_i hok
+      refine ⟨by rw [← hp, ← y1], ?_⟩
+      intro hh
+      have := y4 hh
+      simp [this] at hok
+    · exact ⟨by rw [← hp, ← y1], fun _ => rfl⟩
+  unfold readTail
+  dsimp only
+  split
+  · split
+    · exact key _
+    · split
+      · exact key _
+      · exact ⟨hp, fun hh => by simp [hst] at hh⟩
+  · exact ⟨hp, fun hh => by simp [hst] at hh⟩
+
+theorem stmtTail_stopInv (st : Option Nat) (g : G) (err tn : Bool) (line o l : Nat)
+    (hp : g.panic = false) (hst : g.stopped = false) : StopInv (stmtTail st g err tn line o l) := by
+  unfold stmtTail
+  dsimp only
+  split
+  · obtain ⟨y1, _, _, y4⟩ := yielded_of_not_stopped g st
+      { stmts := g.acc, inc := incomplete o l, err := true, fromRead := false, inStmt := false } hst
+    have y1' := y1.trans hp
+    split
+    · rename_i hc
+      refine ⟨y1', ?_⟩
+      intro hh
+      have := y4 hh
+      simp [this, y1'] at hc
+    · exact ⟨y1', fun _ => rfl⟩
+  · split
+    · obtain ⟨y1, _, _, y4⟩ := yielded_of_not_stopped g st
+        { stmts := g.acc, inc := incomplete o l, err := false, fromRead := false, inStmt := false } hst
+      have y1' := y1.trans hp
+      split
+      · rename_i hc; simp [y1'] at hc
+      · split
+        · rename_i hok
+          refine ⟨y1', ?_⟩
+          intro hh
+          have := y4 hh
+          simp [this] at hok
+        · exact ⟨y1', fun _ => rfl⟩
+    · exact ⟨hp, fun hh => by simp [hst] at hh⟩
+
+theorem step_stopInv (st : Option Nat) (g : G) (e : Ev) (h : StopInv g)
+    (hr : (g.wstopped && !g.done && e.isRead) = false) : StopInv (step st g e) := by
+  obtain ⟨hp, hs⟩ := h
+  by_cases hdp : (g.done || g.panic) = true
+  · cases e <;> simpa [step, hdp] using ⟨hp, hs⟩
+  · have hd' : g.done = false := by
+      cases hh : g.done <;> simp [hh] at hdp ⊢
+    have stopped_false : g.wstopped = false → g.stopped = false := by
+      intro hw
+      cases hh : g.stopped
+      · rfl
+      · have := hs hh; simp [hw] at this
+    cases e with
+    | read nl line o l err ins =>
+      have hw : g.wstopped = false := by simpa [Ev.isRead, hd'] using hr
+      simp only [step]
+      rw [if_neg hdp]
+      exact readTail_stopInv st g nl line o l err ins hp (stopped_false hw)
+    | stmt id err tn line o l =>
+      by_cases hw : g.wstopped = true
+      · simp only [step]
+        rw [if_neg hdp, if_pos hw]
+        exact ⟨hp, fun hh => hs hh⟩
+      · have hw' : g.wstopped = false := by simpa using hw
+        simp only [step]
+        rw [if_neg hdp, if_neg hw]
+        exact stmtTail_stopInv st { g with acc := g.acc ++ [id] } err tn line o l hp (stopped_false hw')
+
+theorem runFrom_stopInv (st : Option Nat) (tr : List Ev) (g : G) (h : StopInv g)
+    (hr : noReadAfterStop st g tr = true) : StopInv (runFrom st g tr) := by
+  induction tr generalizing g with
+  | nil => exact h
+  | cons e tr ih =>
+    rw [runFrom_cons]
+    simp only [noReadAfterStop, Bool.and_eq_true, Bool.not_eq_true'] at hr
+    exact ih _ (step_stopInv st g e h hr.1) hr.2
+
+/-- the final flush never calls a consumer that has stopped -/
+theorem finish_stopInv (st : Option Nat) (g : G) (err : Bool) (o l : Nat) (h : StopInv g) :
+    (finish st g err o l).panic = false := by
+  obtain ⟨hp, hs⟩ := h
+  unfold finish
+  rw [if_neg (by simp [hp])]
+  split
+  · rename_i hc
+    have hw : g.wstopped = false := by
+      cases hh : g.wstopped <;> simp [hh] at hc ⊢
+    have hst : g.stopped = false := by
+      cases hh : g.stopped
+      · rfl
+      · have := hs hh; simp [hw] at this
+    have := (yielded_of_not_stopped g st
+      { stmts := g.acc, inc := incomplete o l, err := false, fromRead := false, inStmt := false } hst).1
+    simpa [hp] using this
+  · exact hp
+
+/-- the final flush for a consumer that never stops -/
+theorem finish_live (g : G) (hl : Live g) (o l : Nat) :
+    ran (finish none g false o l) = ran g ++ (if incomplete o l then [] else accIds g) := by
+  obtain ⟨h1, h2, h3, h4⟩ := hl
+  unfold finish
+  by_cases ha : g.acc.isEmpty = true
+  · have : g.acc = [] := by simpa using ha
+    simp [h3, h4, this, ran, accIds]
+  · simp only [h3, h4, ha, Bool.false_eq_true, if_false, Bool.not_false, Bool.and_self, if_true]
+    simp only [ran, G.yielded, h1, Bool.false_eq_true, if_false, ranOf_append_single, accIds]
+    cases incomplete o l <;> simp
 
 end ShVerif.C08
